@@ -277,7 +277,7 @@ def mc_jobs(q):
          ("MC_HostAddr", "MC_HostAddr_parse.cfg", "MC_HostAddr_parse (16 texts x 2 default ports)", None),
          ("MC_HostAddr", "MC_HostAddr_v6split.cfg", "shipped host_addr_alloc (cut at the last colon)", "PostOK"),
          ("MC_HostAddr", "MC_HostAddr_dedup.cfg", "shipped host_addr_add_addr (lookup before default port)", "PostOK|Inv"),
-         ("MC_SapRcvr", "MC_SapRcvr.cfg", "MC_SapRcvr filter (one origin, 39 datagram variants, 2 cache times x 2 clean intervals, 5 clock values)", None),
+         ("MC_SapRcvr", "MC_SapRcvr.cfg", "MC_SapRcvr filter (one origin, 38 datagram variants, 2 cache times x 2 clean intervals, 5 clock values)", None),
          ("MC_SapRcvr", "MC_SapRcvr_cache.cfg", "MC_SapRcvr cache (2 origins in one bucket, complete/incomplete announcements, expiry)", None),
          ("MC_SapRcvr", "MC_SapRcvr_fdleak.cfg", "shipped sap_receiver_create error path (socket left open)", "FdOK|PostOK"),
          ("MC_SapRcvr", "MC_SapRcvr_dcnull.cfg", "shipped sap_receiver_create (data_cache_create unchecked)", "PostOK")]
@@ -287,13 +287,16 @@ def mc_jobs(q):
               ("MC_SapRcvr", "MC_SapRcvr_cache3.cfg", "MC_SapRcvr cache (3 origins, 2 names)", None)]
     return J
 
-def model_check(ctx):
-    jobs = mc_jobs(ctx.quick)
+def model_check(quick):
+    """runs in a background thread: only TLC, no bookkeeping"""
+    jobs = mc_jobs(quick)
     def one(j):
         module, cfg, label, inv = j
         return j, common.tlc(module, cfg=cfg, workers=1, timeout=900, xss="64m", xmx="3g")
-    with concurrent.futures.ThreadPoolExecutor(max_workers=3) as ex:
-        done = list(ex.map(one, jobs))
+    with concurrent.futures.ThreadPoolExecutor(max_workers=3) as ex:           # + one TLC of the main thread = 4
+        return list(ex.map(one, jobs))
+
+def account_mc(ctx, done):
     for (module, cfg, label, inv), r in done:
         if inv is None:
             if r.rc != 0: raise common.Infra("%s/%s: the specification violates its own property (%s)\n%s" % (module, cfg, r.violation, r.out[-3000:]))
@@ -303,7 +306,7 @@ def model_check(ctx):
                 raise common.Infra("%s/%s: expected a violation of %s, got rc=%s %s\n%s" % (module, cfg, inv, r.rc, r.violation, r.out[-1500:]))
             ctx.cov.setdefault("violations_the_model_must_find", []).append({"model": label, "invariant": inv, "states": r.distinct})
             ctx.add(states=r.distinct, transitions=r.generated)
-    ctx.log("model checking done (%d TLC runs)" % len(jobs))
+    ctx.log("model checking: %d TLC runs accounted" % len(done))
 
 # ---------------------------------------------------------------- walks out of TLC
 def tlc_walks(rig, module, cfg, nbeh, depth):
@@ -492,27 +495,34 @@ def run(ctx):
     q = ctx.quick
     rig = Rig(ctx)
     ctx.log("driver built from %s" % common.REPO)
-    with concurrent.futures.ThreadPoolExecutor(max_workers=1) as bg:
-        mc = bg.submit(model_check, ctx)                 # TLC on the models while the driver runs the probes
-        open_ = probes(rig)
-        mc.result()
+    bg = concurrent.futures.ThreadPoolExecutor(max_workers=1)
+    mc = bg.submit(model_check, ctx.quick)                   # TLC on the models (<= 3 at a time) while the driver and the trace validations run
+    try:
+        body(ctx, rig)
+    finally:
+        done = mc.result()
+        bg.shutdown()
+    account_mc(ctx, done)
+
+def body(ctx, rig):
+    q = ctx.quick
+    open_ = probes(rig)
     clone_ok = not (open_["ha-clone"] or open_["ha-clone-empty"])
     unsafe = not any(open_[k] for k in ("sap-4096", "sap-5000", "sap-long-c", "sap-name-grow", "sap-name-grow-62", "sap-null-cache"))
     ctx.log("probes: %s -> host_addr_clone %s the walks, unsafe datagram shapes %s" % (ctx.cov["probes"], "in" if clone_ok else "kept out of",
             "in" if unsafe else "kept out"))
     rnd = random.Random(ctx.seed)
-    nb = (60, 60, 50) if q else (800, 800, 500)
+    nb = (60, 60, 50) if q else (500, 500, 300)
     dp = (40, 40, 45) if q else (60, 60, 80)
     sims = [("MC_HostNames", "MC_HostNames_sim.cfg", nb[0], dp[0]),
             ("MC_HostAddr", "MC_HostAddr_sim.cfg" if clone_ok else "MC_HostAddr_sim_noclone.cfg", nb[1], dp[1]),
             ("MC_SapRcvr", "MC_SapRcvr_sim_unsafe.cfg" if unsafe else "MC_SapRcvr_sim.cfg", nb[2], dp[2])]
-    with concurrent.futures.ThreadPoolExecutor(max_workers=3) as ex:
-        W = list(ex.map(lambda s: tlc_walks(rig, *s), sims))
+    W = [tlc_walks(rig, *s) for s in sims]
     ctx.add(spec_behaviours_replayed=sum(len(w) for w in W), spec_steps_replayed=sum(len(h) for w in W for h in w))
     # (b) host name list
     res, c = run_histories(rig, "hostname_list", "Trace_HostNames", "hostname_list walks out of MC_HostNames", W[0])
     f = features(res)
-    nh = 6 if q else 60
+    nh = 6 if q else 30
     res2, c2 = run_histories(rig, "hostname_list", "Trace_HostNames", "hostname_list histories made by the rig (60 host names, both spellings, 64 octet names)",
                              [rand_hn(rnd, 250 if q else 600) for _ in range(nh)])
     f.update(features(res2))
